@@ -1,6 +1,7 @@
 package main
 
 import (
+	"context"
 	"fmt"
 	"math/rand"
 	"strconv"
@@ -51,6 +52,17 @@ func (s *limiterSlice) exec(t []string) string {
 		return strconv.FormatInt(int64(s.l.TryReservePermits(k, time.Duration(mw))), 10)
 	case "try":
 		return strconv.FormatBool(s.l.TryAcquirePermits(uint(atoi(t[1]))))
+	case "bacq":
+		// a blocking AcquirePermits whose context is cancelled 5 ms (real time) into the wait; the stopwatch is frozen, so the wait
+		// is the model's: 0 (acquired at once) or at least a quarter of a 10 s unit (cancelled). The reservation it made stays.
+		ctx, cancel := context.WithCancel(context.Background())
+		go func() { time.Sleep(5 * time.Millisecond); cancel() }()
+		err := s.l.AcquirePermits(ctx, uint(atoi(t[1])))
+		cancel()
+		if err == nil {
+			return "ok"
+		}
+		return "canceled"
 	}
 	return "bad-op"
 }
@@ -61,6 +73,31 @@ func genLimiter(r *rand.Rand, n int, tier string, emit func(string) string) {
 		ops = 300
 	}
 	units := []int64{1, 3, 7, 10, 100, 1000, 1e6, 25e6, 1e9, 60e9, 3600e9}
+	// cases with blocking acquires that are cancelled while waiting: unit 10 s, instants on quarter units, so that every wait is
+	// either 0 or at least 2.5 s (never waited out: the context is cancelled after 5 ms)
+	for c := 0; c < max(2, n/10); c++ {
+		emit(fmt.Sprintf("case limiter-blocking-%d", c))
+		const unit = int64(10e9)
+		pp := pick(r, int64(1), 2, 3)
+		if r.Intn(2) == 0 {
+			emit(fmt.Sprintf("limiter cfg smooth %d", unit))
+		} else {
+			emit(fmt.Sprintf("limiter cfg bursty %d %d", pp, unit))
+		}
+		var now int64
+		for i := 0; i < 12; i++ {
+			now += unit / 4 * int64(r.Intn(4))
+			emit(fmt.Sprintf("limiter t %d", now))
+			switch r.Intn(4) {
+			case 0:
+				emit(fmt.Sprintf("limiter bacq %d", pick(r, int64(1), 1, 2, pp)))
+			case 1:
+				emit(fmt.Sprintf("limiter try %d", pick(r, int64(1), pp)))
+			default:
+				emit(fmt.Sprintf("limiter acq %d %d", pick(r, int64(1), 1, 2, pp+1), pick(r, int64(-1), -1, 0, unit)))
+			}
+		}
+	}
 	for c := 0; c < n; c++ {
 		emit(fmt.Sprintf("case limiter-%d", c))
 		var unit int64 // slot or period length
